@@ -7,9 +7,11 @@ package c08
 import (
 	"fmt"
 	"os"
+	"path/filepath"
 	"strings"
 
 	"compiler/verifh/fl"
+	"compiler/verifh/run"
 	"compiler/verifh/prog"
 	"compiler/verifh/vl"
 )
@@ -437,6 +439,7 @@ func Run(c *vl.Ctx) {
 			c.Sample(map[string]string{"id": cases[i].ID, "program": fl.Render(cases[i].P), "expected": cases[i].Want.String()})
 		}
 	}
+	forinShrink(c, r)
 	r.Report()
 	r.Close()
 	c.Assume = append(c.Assume, "an out-of-range index stops with `panic: index out of bounds`, non-zero status, after every earlier line was delivered (stdout is a pipe)",
@@ -445,4 +448,128 @@ func Run(c *vl.Ctx) {
 	c.Finish(vl.Coverage{Evaluations: int64(2 * len(cases)), Exhaustive: true,
 		Rule:  fmt.Sprintf("all histories of <=%d operations {append, append in if/while, len, read(i), set(i), read in callee} from literals of length %v, i over the boundary set {-len-1,-len,-1,0,len-1,len}, x 5 index forms x element kinds; strings of length 0-3 x every index x 5 forms; both targets; distinct_nontrivial = unique (target, case) ids", depth, starts),
 		Bound: fmt.Sprintf("depth<=%d", depth)})
+}
+
+
+// forinShrink: `for v in xs` while the body replaces xs (a dynamic array or a string) by a
+// shorter or longer value at iteration k. What the loop does then is not pinned by the language
+// (the length may be read once or on every iteration); what is pinned is that no element
+// access leaves the value xs has at that moment. Accepted behaviours: (a) length read once:
+// the elements of the current value, and `panic: index out of bounds` at the first position the
+// current value does not have; (b) length re-read: the loop ends there without a panic.
+func forinShrink(c *vl.Ctx, r *prog.Runner) {
+	type sh struct {
+		kind    string
+		n, k, m int
+	}
+	var all []sh
+	for _, kind := range []string{"dyn-lit", "dyn-call", "str"} {
+		for _, n := range []int{3, 6} {
+			for _, k := range []int{0, 1, n - 1} {
+				for _, m := range []int{0, 1, 2, n + 1} {
+					if kind != "str" && m == 0 {
+						continue // an empty array literal has no element type of its own
+					}
+					all = append(all, sh{kind, n, k, m})
+				}
+			}
+		}
+	}
+	for _, x := range all {
+		id := fmt.Sprintf("C08/forin-replace/%s/n%d/at%d/m%d", x.kind, x.n, x.k, x.m)
+		if f := os.Getenv("VERIF_FILTER"); f != "" && !strings.Contains(id, f) {
+			continue
+		}
+		old := make([]int, x.n)
+		nw := make([]int, x.m)
+		for i := range old {
+			old[i] = 10 + i
+		}
+		for i := range nw {
+			nw[i] = 70 + i
+		}
+		lit := func(v []int) string {
+			if x.kind == "str" {
+				b := make([]byte, len(v))
+				for i, e := range v {
+					b[i] = byte('A' + e%26)
+				}
+				return "\"" + string(b) + "\""
+			}
+			var p []string
+			for _, e := range v {
+				p = append(p, fmt.Sprint(e))
+			}
+			return "[" + strings.Join(p, ", ") + "]"
+		}
+		show := func(e int) string {
+			if x.kind == "str" {
+				return fmt.Sprint(int('A' + e%26))
+			}
+			return fmt.Sprint(e)
+		}
+		ty, repl, pr := "[]i32", lit(nw), "io::Println(v);"
+		src := "import \"std/io\";\n"
+		if x.kind == "str" {
+			ty, pr = "str", "io::Println(v as i32);"
+		}
+		if x.kind == "dyn-call" {
+			src += "fn fresh() -> []i32 { return " + lit(nw) + "; }\n"
+			repl = "fresh()"
+		}
+		src += fmt.Sprintf("fn main() {\n    let xs: %s = %s;\n    let i: i32 = 0;\n    for v in xs {\n        %s\n        if i == %d {\n            xs = %s;\n        }\n        i = i + 1;\n    }\n    io::Println(\"done\");\n    io::Println(len(xs));\n}\n", ty, lit(old), pr, x.k, repl)
+		// expected lines under both readings
+		var a, b []string
+		cur := old
+		panicA := false
+		for i := 0; i < x.n; i++ {
+			if i >= len(cur) {
+				panicA = true
+				break
+			}
+			a = append(a, show(cur[i]))
+			if i == x.k {
+				cur = nw
+			}
+		}
+		cur = old
+		for i := 0; i < len(cur); i++ {
+			b = append(b, show(cur[i]))
+			if i == x.k {
+				cur = nw
+			}
+		}
+		tail := []string{"done", fmt.Sprint(x.m)}
+		wantA, termA := strings.Join(a, "|"), "panic"
+		if !panicA {
+			wantA, termA = strings.Join(append(a, tail...), "|"), "exit0"
+		}
+		wantB := strings.Join(append(b, tail...), "|")
+		dir := filepath.Join(r.R.NewDir(), "proj")
+		run.WriteFiles(dir, map[string]string{"main.fer": src})
+		bl := r.R.RealCompileNative(dir, "main.fer")
+		files := map[string]string{"main.fer": src, "accepted_a.txt": wantA + " [" + termA + "]", "accepted_b.txt": wantB + " [exit0]"}
+		if !bl.Compile.OK() || !bl.Exists {
+			c.Outcome("forin-replace:rejected")
+			os.RemoveAll(filepath.Dir(dir))
+			continue
+		}
+		p := r.R.Exec(bl)
+		os.RemoveAll(filepath.Dir(dir))
+		got := strings.Join(strings.Split(strings.TrimRight(p.Stdout, "\n"), "\n"), "|")
+		term := "exit0"
+		switch {
+		case p.Signal != "" && strings.Contains(p.Stderr, "index out of bounds"), p.Exit != 0 && strings.Contains(p.Stderr+p.Stdout, "index out of bounds"):
+			term = "panic"
+			got = strings.TrimSuffix(strings.TrimSuffix(got, "|panic: index out of bounds"), "panic: index out of bounds")
+		case p.Signal != "" || p.Exit != 0:
+			term = "crash:" + p.Signal + fmt.Sprint(p.Exit)
+		}
+		c.Distinct(id)
+		if (got == wantA && term == termA) || (got == wantB && term == "exit0") {
+			c.Outcome("forin-replace:" + term)
+			continue
+		}
+		c.Fail(vl.Fail{Case: id, Obs: fmt.Sprintf("got %s [%s]; accepted: %s [%s] or %s [exit0]", got, term, wantA, termA, wantB), Files: files})
+	}
 }
